@@ -194,6 +194,10 @@ class World(object):
             else:
                 with seam.activate(self.run, getattr(seam._tl, "task", 0)):
                     self.store = self._construct(cfg)
+                # threading mode: the locked-identifier lists become yield points
+                for name, val in list(vars(self.store).items()):
+                    if type(val) is list and "locked" in name:
+                        setattr(self.store, name, simsched.YieldList(val))
         finally:
             if old is None:
                 os.environ.pop("USE_MULTIPROCESSING", None)
@@ -212,7 +216,10 @@ class World(object):
         synchronisation primitives and manager-list proxies."""
         import copy
         v = copy.copy(self.store)
-        v.default_algo_list = list(self.store.default_algo_list)
+        # ordinary (non-shared) mutable attributes are private copies in a forked child
+        for name, val in list(vars(self.store).items()):
+            if isinstance(val, list) and "locked" not in name:
+                setattr(v, name, list(val))
         return v
 
     def model(self):
